@@ -2068,4 +2068,121 @@ theorem sim_mkFrame (o : Opts) (A : AState) (hi : AInv o A) (pid : Nat) (hnode :
   simp only [hk, hh, hdup', Bool.false_eq_true, if_false]
   rfl
 
+/-! ### which containers a state has after a creation; the path of a container is unique -/
+
+theorem below_addBlock_new {o : Opts} {A : AState} (hi : AInv o A) (key orig : Str) (p : Path) (t : Nat)
+    (h : Below (addBlock A key orig) A.nextId p t) : p = [] := by
+  cases p with
+  | nil => rfl
+  | cons k p' =>
+    obtain ⟨f, hfm, hp, _, _⟩ := h
+    have hfm' : f ∈ A.frames := hfm
+    have h1 := hi.frmPar f hfm'
+    have h2 := hi.frmIds f hfm'
+    omega
+
+/-- the containers of the state with one more block: the old ones, and the new block under its key -/
+theorem contAt_addBlock_inv {o : Opts} {A : AState} (hi : AInv o A) (key orig : Str) (path : Path) (t : Nat)
+    (h : ContAt (addBlock A key orig) path t) : ContAt A path t ∨ path = [key] := by
+  cases path with
+  | nil => cases h
+  | cons k p =>
+    obtain ⟨b, hb, hk, hbel⟩ := h
+    rcases List.mem_append.mp hb with h1 | h1
+    · exact Or.inl ⟨b, h1, hk, below_frames (A := addBlock A key orig) (A' := A) rfl p b.cid t hbel⟩
+    · simp only [List.mem_singleton] at h1
+      subst h1
+      have := below_addBlock_new hi key orig p t hbel
+      subst this
+      exact Or.inr (by rw [← hk])
+
+theorem below_addFrame_inv {o : Opts} {A : AState} (hi : AInv o A) (pid : Nat) (hpid : pid < A.nextId) (key orig : Str) :
+    ∀ (p : Path) (c t : Nat), Below (addFrame A pid key orig) c p t →
+      Below A c p t ∨ ∃ pp, p = pp ++ [key] ∧ Below A c pp pid ∧ t = A.nextId
+  | [], c, t, h => Or.inl h
+  | k :: p, c, t, ⟨f, hfm, hp, hn, hb⟩ => by
+    rcases List.mem_append.mp hfm with h1 | h1
+    · rcases below_addFrame_inv hi pid hpid key orig p f.cid t hb with h2 | ⟨pp, h2, h3, h4⟩
+      · exact Or.inl ⟨f, h1, hp, hn, h2⟩
+      · exact Or.inr ⟨k :: pp, by rw [h2]; rfl, ⟨f, h1, hp, hn, h3⟩, h4⟩
+    · simp only [List.mem_singleton] at h1
+      subst h1
+      simp only [] at hp hn hb
+      have hp0 : p = [] := by
+        cases p with
+        | nil => rfl
+        | cons k2 p2 =>
+          obtain ⟨g, hgm, hgp, _, _⟩ := hb
+          rcases List.mem_append.mp hgm with h2 | h2
+          · have := hi.frmPar g h2; have := hi.frmIds g h2; omega
+          · simp only [List.mem_singleton] at h2; subst h2; simp only [] at hgp; omega
+      subst hp0
+      have ht : A.nextId = t := hb
+      exact Or.inr ⟨[], by rw [← hn]; rfl, hp.symm, ht.symm⟩
+
+/-- the containers of the state with one more save frame: the old ones, and the new frame below (a path of) its parent -/
+theorem contAt_addFrame_inv {o : Opts} {A : AState} (hi : AInv o A) (pid : Nat) (hpid : pid < A.nextId) (key orig : Str) (path : Path) (t : Nat)
+    (h : ContAt (addFrame A pid key orig) path t) : ContAt A path t ∨ ∃ pp, path = pp ++ [key] ∧ ContAt A pp pid := by
+  cases path with
+  | nil => cases h
+  | cons k p =>
+    obtain ⟨b, hb, hk, hbel⟩ := h
+    rcases below_addFrame_inv hi pid hpid key orig p b.cid t hbel with h2 | ⟨pp, h2, h3, _⟩
+    · exact Or.inl ⟨b, hb, hk, h2⟩
+    · exact Or.inr ⟨k :: pp, by rw [h2]; rfl, b, hb, hk, h3⟩
+
+theorem below_unique {o : Opts} {A : AState} (hi : AInv o A) : ∀ (n : Nat) (p1 p2 : Path) (c1 c2 t : Nat), p1.length ≤ n →
+    (∀ f ∈ A.frames, f.cid ≠ c1) → (∀ f ∈ A.frames, f.cid ≠ c2) → Below A c1 p1 t → Below A c2 p2 t → c1 = c2 ∧ p1 = p2 := by
+  intro n
+  induction n with
+  | zero =>
+    intro p1 p2 c1 c2 t hl r1 r2 h1 h2
+    have : p1 = [] := List.length_eq_zero_iff.mp (by omega)
+    subst this
+    cases h1
+    rcases List.eq_nil_or_concat p2 with rfl | ⟨p2', k2, rfl⟩
+    · cases h2; exact ⟨rfl, rfl⟩
+    · rw [List.concat_eq_append] at h2
+      obtain ⟨_, _, f, hf, _, _, he⟩ := (below_snoc A k2 p2' c2 c1).mp h2
+      exact absurd he (r1 f hf)
+  | succ n ih =>
+    intro p1 p2 c1 c2 t hl r1 r2 h1 h2
+    rcases List.eq_nil_or_concat p1 with rfl | ⟨p1', k1, rfl⟩
+    · cases h1
+      rcases List.eq_nil_or_concat p2 with rfl | ⟨p2', k2, rfl⟩
+      · cases h2; exact ⟨rfl, rfl⟩
+      · rw [List.concat_eq_append] at h2
+        obtain ⟨_, _, f, hf, _, _, he⟩ := (below_snoc A k2 p2' c2 c1).mp h2
+        exact absurd he (r1 f hf)
+    rcases List.eq_nil_or_concat p2 with rfl | ⟨p2', k2, rfl⟩
+    · cases h2
+      rw [List.concat_eq_append] at h1
+      obtain ⟨_, _, f, hf, _, _, he⟩ := (below_snoc A k1 p1' c1 c2).mp h1
+      exact absurd he (r2 f hf)
+    rw [List.concat_eq_append] at h1 h2 hl ⊢
+    rw [List.concat_eq_append]
+    obtain ⟨pc1, hb1, f1, hf1, hp1, hn1, he1⟩ := (below_snoc A k1 p1' c1 t).mp h1
+    obtain ⟨pc2, hb2, f2, hf2, hp2, hn2, he2⟩ := (below_snoc A k2 p2' c2 t).mp h2
+    have : f1 = f2 := hi.frmUniq f1 hf1 f2 hf2 (Or.inl (by rw [he1, he2]))
+    subst this
+    rw [hp1] at hp2
+    subst hp2
+    obtain ⟨e1, e2⟩ := ih p1' p2' c1 c2 pc1 (by simp at hl; omega) r1 r2 hb1 hb2
+    exact ⟨e1, by rw [e2, ← hn1, ← hn2]⟩
+
+/-- a container has ONE path -/
+theorem contAt_unique {o : Opts} {A : AState} (hi : AInv o A) (p1 p2 : Path) (t : Nat) (h1 : ContAt A p1 t) (h2 : ContAt A p2 t) : p1 = p2 := by
+  cases p1 with
+  | nil => cases h1
+  | cons k1 q1 =>
+    cases p2 with
+    | nil => cases h2
+    | cons k2 q2 =>
+      obtain ⟨b1, hb1, hk1, hbel1⟩ := h1
+      obtain ⟨b2, hb2, hk2, hbel2⟩ := h2
+      obtain ⟨e1, e2⟩ := below_unique hi q1.length q1 q2 b1.cid b2.cid t (Nat.le_refl _)
+        (fun f hf e => hi.blkFrm b1 hb1 f hf e.symm) (fun f hf e => hi.blkFrm b2 hb2 f hf e.symm) hbel1 hbel2
+      have : b1 = b2 := hi.blkUniq b1 hb1 b2 hb2 (Or.inr e1)
+      rw [← hk1, ← hk2, this, e2]
+
 end CifModel.ParserSimF
